@@ -93,6 +93,51 @@ Definition do_onboard (k : dongle_kind) (o : admin_opts) (stdin : list str) (typ
   onboard k seed (fst pt) ;;;
   disconnect.
 
+(* do_onboard again, handing back what the operator has not yet been asked for: the stdin
+   lines after the confirmation loop and the getpass entries after the PIN prompt *)
+Definition do_onboard_keep (k : dongle_kind) (o : admin_opts) (stdin : list str) (typed : list bytes)
+           (seed : bytes) : M (list str * list bytes) :=
+  (match k with KLedger => if o_has_output o then ret tt else raise AdminError | _ => ret tt end) ;;;
+  (match o_pin o with
+   | Some p => if pin_is_valid p false then ret tt else raise AdminError
+   | None => ret tt end) ;;;
+  connect ;;;
+  mode <- get_current_mode ;;
+  (if mode =? MODE_BOOTLOADER then ret tt else raise AdminError) ;;;
+  ok <- echo k ;;
+  (if ok then ret tt else raise AdminError) ;;;
+  onb <- is_onboarded ;;
+  (if onb then raise AdminError else ret tt) ;;;
+  c <- of_optA (confirm stdin) ;;
+  (if fst c then ret tt else raise AdminError) ;;;
+  pt <- match o_pin o with
+        | Some p => ret (p, typed)
+        | None => of_optA (ask_for_pin typed (o_any_pin o))
+        end ;;
+  onboard k seed (fst pt) ;;;
+  disconnect ;;;
+  ret (snd c, snd pt).
+
+(* do_onboard after the first dispose_hsm (onboard.py 127-152), attestation setup excluded.
+   Ledger: "Press [Enter] to continue" consumes one stdin line (readline() gives "" at EOF and
+   nothing is raised), wait_for_reconnection only sleeps, then
+   try: do_unlock(options, no_exec=True, label=False)  (exit defaults to True)
+   except Exception -> AdminError.  SGX returns right after dispose_hsm. *)
+Definition onboard_second_half (k : dongle_kind) (o : admin_opts) (stdin_rest : list str)
+           (typed_rest : list bytes) : M unit :=
+  match k with
+  | KLedger =>
+      _ <- ret (tl stdin_rest) ;;                                  (* sys.stdin.readline() *)
+      try_catch (do_unlock k o true true typed_rest ;;; ret tt)
+                (fun e => Some (raise AdminError))                 (* except Exception -> AdminError *)
+  | _ => ret tt
+  end.
+
+Definition do_onboard_through_unlock (k : dongle_kind) (o : admin_opts) (stdin : list str)
+           (typed : list bytes) (seed : bytes) : M unit :=
+  r <- do_onboard_keep k o stdin typed seed ;;
+  onboard_second_half k o (fst r) (snd r).
+
 (* do_changepin *)
 Definition do_changepin (k : dongle_kind) (o : admin_opts) (typed : list bytes) : M unit :=
   (match o_new_pin o with
